@@ -49,6 +49,8 @@ def one(sid):
 ids = sorted(os.path.basename(x) for x in glob.glob(os.path.join(ROOT, "seeded", "*")) if os.path.isdir(x))
 if args:
     ids = [i for i in ids if any(i.startswith(a) for a in args)]
+if os.environ.get("RECHECK_RESUME"):
+    ids = [i for i in ids if not os.path.exists(os.path.join(OUT, i + ".json"))]
 with cf.ThreadPoolExecutor(lanes) as ex:
     for rec in ex.map(one, ids):
         first = next((m for c in rec.get("checks", {}).values() for m in c["mechanisms"]), "")
